@@ -892,6 +892,25 @@ def monitor_prio1_progress(sc, ir):
             fails.append(("op %d: items are waiting on priorities %s, nothing is in flight, yet nothing is delivered after settling "
                           "(shares %s) [%s H=%d inputs=%s]" % (i, sorted(p for p, _ in waiting), shares, m["divider"], H, m["cfg"]), key))
             break
+    # a priority alone in having data, nothing of another priority in flight, itself within its share: the vacant handlers are its
+    # own without any release (v1 analogue of the v2 clause; theorem C06_v2_alone_within_share states it for the v2 machine)
+    if not fails:
+        for i, v in enumerate(view):
+            if v["uncertain"] or v["queued"] or v["done"] or v["olen"] != 0 or len(v["held"]) >= H or not v["reg_after"]:
+                continue
+            waiting = [(p, ch) for p, ch in v["reg_after"].items() if v["consumed"].get(ch, 0) < v["nput"].get(ch, 0)]
+            if len(waiting) != 1:
+                continue
+            p0 = waiting[0][0]
+            ps = sorted(v["reg_after"], reverse=True)
+            shares = ref_shares(ps, kindn, H)
+            if any(shares.get(q, 0) == 0 for q in ps):
+                continue        # zero-share configurations: the known finding
+            if all(h == p0 for h in v["held"]) and len(v["held"]) <= shares.get(p0, 0):
+                fails.append(("op %d: priority %d alone has data, %d of %d handlers hold its items and nothing else is in flight, yet nothing "
+                              "is offered after settling [%s H=%d inputs=%s]" % (i, p0, len(v["held"]), H, m["divider"], H, m["cfg"]),
+                              "prio1:%s:%d:%s" % (m["divider"], H, m["cfg"])))
+                break
     if tr.done == 1 and not m.get("fault"):
         gi = next((i for i, v in enumerate(view) if v["done"]), len(view) - 1)
         v = view[gi]
